@@ -187,6 +187,10 @@ func rewriteOwn(st *Store, c cid.Cid, mode string, isRoot bool) (format.Node, er
 	if err != nil || d == nil {
 		return nil, fmt.Errorf("rewrite: undecodable block")
 	}
+	if mode == "inline" && isRoot && len(pn.Links()) > 0 {
+		// a link node that also carries inline bytes (legal protobuf; this library reads the children only)
+		d.Data = []byte("XY")
+	}
 	if mode == "mtime" && isRoot {
 		sec := int64(-86400)
 		d.Mtime = &pb.IPFSTimestamp{Seconds: &sec}
@@ -226,7 +230,7 @@ func rewriteOwn(st *Store, c cid.Cid, mode string, isRoot bool) (format.Node, er
 }
 
 func buildFileCase(st *Store, fc *FileCase, content []byte) (cid.Cid, uint64, error) {
-	if fc.Writer == "own-mixed" || fc.Writer == "own-mtime" {
+	if fc.Writer == "own-mixed" || fc.Writer == "own-mtime" || fc.Writer == "own-inline" {
 		c, sz, err := buildOwnFile(st, bytes.NewReader(content), fc.Chunker, fc.W)
 		if err != nil {
 			return c, sz, err
